@@ -994,6 +994,11 @@ fn gen_c18(seed: u64, _index: u64, tier: Tier) -> ResolvePlan {
             prune_before: false,
         });
     }
+    // now and then the process is held up between two clock reads (fault `clock.stall`;
+    // own random stream, the rest of the plan stays what it was)
+    if Rng::new(seed ^ 0xc10c_57a1_0000).chance(0.25) {
+        knobs.faults.insert("clock.stall".into(), 0.02);
+    }
     ResolvePlan {
         knobs,
         hints_auto: true,
@@ -1726,6 +1731,11 @@ fn gen_c10(seed: u64, _index: u64, tier: Tier) -> ResolvePlan {
         .filter(|(_, s)| matches!(**s, "auth" | "nonauth"))
         .map(|(n, _)| n.clone())
         .collect();
+    // now and then the process is held up between two clock reads (fault `clock.stall`;
+    // own random stream, the rest of the plan stays what it was)
+    if Rng::new(seed ^ 0xc10c_57a1_0000).chance(0.25) {
+        knobs.faults.insert("clock.stall".into(), 0.02);
+    }
     ResolvePlan {
         knobs,
         hints_auto: true,
@@ -2104,6 +2114,11 @@ fn gen_c06(seed: u64, index: u64, tier: Tier) -> ResolvePlan {
             prune_before: false,
         })
         .collect();
+    // now and then the process is held up between two clock reads (fault `clock.stall`;
+    // own random stream, the rest of the plan stays what it was)
+    if Rng::new(seed ^ 0xc10c_57a1_0000).chance(0.25) {
+        knobs.faults.insert("clock.stall".into(), 0.02);
+    }
     ResolvePlan {
         knobs,
         hints_auto: true,
